@@ -20,6 +20,7 @@ META = {
 
 def run(s):
     K.suite_workload(s)
+    K.fixtures_workload(s)
     K.pair_histories(s)
     q = s.tier == 'quick'
     idx = 0
